@@ -58,7 +58,7 @@ RuleGaps(new, k, e) ==
 PlacementHolds(old, new, e) ==
     \A k \in Touches(e) : \A g \in Gaps(new, k, e) :
         \/ g \in Gaps(old, k, e)
-        \/ Gaps(old, k, e) = {} /\ g \in RuleGaps(new, k, e)
+        \/ g \in RuleGaps(new, k, e)          \* (also after all records of the kind were removed and one is inserted anew)
         \* explicit position next to the other records that express the same component
         \* (add_covariance_record puts $COVARIANCE right after the $ESTIMATION it belongs to)
         \/ Gaps(old, k, e) = {} /\ g \in UNION {Gaps(old, k2, e) : k2 \in Touches(e) \ {k}}
